@@ -20,9 +20,10 @@ package closure
 // identifier, call, subscript and member terms are wrapped by a recorder that
 // captures the term's own closure and its own debug column.
 //@ func wrapForDebug
-//@   props C19
+//@   props C19 C03
 //@   requires cl != nil
 //@   modifies
+//@   ensures #nonnil result != nil
 //@   ensures #literals (typeis(expr, *ast.StrExpr) || typeis(expr, *ast.NumExpr) || typeis(expr, *ast.TimeExpr) || typeis(expr, *ast.BoolExpr) || typeis(expr, *ast.ListExpr) || typeis(expr, *ast.MapExpr) || typeis(expr, *ast.ObjExpr)) ==> result == cl
 //@   ensures #ident typeis(expr, *ast.IdentExpr) ==> captured(result, cl) == cl && captured(result, col) == expr.(*ast.IdentExpr).Col
 //@   ensures #call typeis(expr, *ast.CallExpr) ==> captured(result, cl) == cl && captured(result, col) == expr.(*ast.CallExpr).DBGCol
@@ -35,3 +36,136 @@ package closure
 //@   requires env != nil && closure != nil && typeis(env.Dgb, *debug.Record) && env.Dgb.(*debug.Record) != nil
 //@   modifies all
 //@   at call dyn: assert #cleared-first len(env.Dgb.(*debug.Record).vs) == 0
+
+// ---- closure compiler: compile time (C03, C06) -----------------------------
+// Each sub-expression is compiled exactly once, in source order, and the
+// closures obtained are stored, in that order, in the closure returned.
+//@ func compile
+//@   props C03 C06
+//@   requires env1 != nil
+//@   modifies
+//@   records compile0 wrapForDebug
+//@   ensures #nonnil result != nil
+//@   ensures #plain !dbg ==> scalls() == 1 && scall(0, compile0, expr, env1, dbg) && result == sret(0, compile0)
+//@   ensures #debug dbg ==> scalls() == 2 && scall(0, compile0, expr, env1, dbg) && scall(1, wrapForDebug, expr, sret(0, compile0)) && result == sret(1, wrapForDebug)
+
+//@ func compile0
+//@   props C03 C06
+//@   requires env1 != nil
+//@   modifies
+//@   records compile staticDispatch dynamicDispatch
+//@   loop 1 invariant rangeindex + 1 <= len(els) && same(els, expr.(*ast.ListExpr).Elems) && len(cs) == sz && sz == len(els) && isfresh(cs) && scalls() == rangeindex + 1 && forall(j, 0, rangeindex + 1, scall(j, compile, els[j], env1, dbg) && cs[j] == sret(j, compile))
+//@   loop 2 invariant rangeindex + 1 <= len(expr.(*ast.MapExpr).Pairs) && len(cs) == sz && sz == len(expr.(*ast.MapExpr).Pairs) && isfresh(cs) && scalls() == 2 * (rangeindex + 1) && forall(j, 0, rangeindex + 1, scall(2 * j, compile, expr.(*ast.MapExpr).Pairs[j].Key, env1, dbg) && scall(2 * j + 1, compile, expr.(*ast.MapExpr).Pairs[j].Val, env1, dbg) && cs[j].k == sret(2 * j, compile) && cs[j].v == sret(2 * j + 1, compile))
+//@   loop 3 invariant rangeindex + 1 <= len(expr.(*ast.ObjExpr).Fields) && len(cs) == sz && sz == len(expr.(*ast.ObjExpr).Fields) && isfresh(cs) && scalls() == rangeindex + 1 && forall(j, 0, rangeindex + 1, scall(j, compile, expr.(*ast.ObjExpr).Fields[j].Val, env1, dbg) && cs[j] == sret(j, compile))
+//@   ensures #nonnil result != nil
+//@   ensures #leaf typeis(expr, *ast.StrExpr) || typeis(expr, *ast.NumExpr) || typeis(expr, *ast.BoolExpr) || typeis(expr, *ast.TimeExpr) || typeis(expr, *ast.IdentExpr) ==> scalls() == 0
+//@   ensures #list typeis(expr, *ast.ListExpr) && len(expr.(*ast.ListExpr).Elems) > 0 ==> scalls() == len(expr.(*ast.ListExpr).Elems) && len(captured(result, cs)) == len(expr.(*ast.ListExpr).Elems) && captured(result, sz) == len(expr.(*ast.ListExpr).Elems) && forall(j, 0, len(expr.(*ast.ListExpr).Elems), scall(j, compile, expr.(*ast.ListExpr).Elems[j], env1, dbg) && captured(result, cs)[j] == sret(j, compile))
+//@   ensures #map typeis(expr, *ast.MapExpr) && len(expr.(*ast.MapExpr).Pairs) > 0 ==> scalls() == 2 * len(expr.(*ast.MapExpr).Pairs) && len(captured(result, cs)) == len(expr.(*ast.MapExpr).Pairs) && forall(j, 0, len(expr.(*ast.MapExpr).Pairs), scall(2 * j, compile, expr.(*ast.MapExpr).Pairs[j].Key, env1, dbg) && scall(2 * j + 1, compile, expr.(*ast.MapExpr).Pairs[j].Val, env1, dbg) && captured(result, cs)[j].k == sret(2 * j, compile) && captured(result, cs)[j].v == sret(2 * j + 1, compile))
+//@   ensures #obj typeis(expr, *ast.ObjExpr) && len(expr.(*ast.ObjExpr).Fields) > 0 ==> scalls() == len(expr.(*ast.ObjExpr).Fields) && len(captured(result, cs)) == len(expr.(*ast.ObjExpr).Fields) && forall(j, 0, len(expr.(*ast.ObjExpr).Fields), scall(j, compile, expr.(*ast.ObjExpr).Fields[j].Val, env1, dbg) && captured(result, cs)[j] == sret(j, compile))
+//@   ensures #call typeis(expr, *ast.CallExpr) ==> scalls() == 1 && ite(expr.(*ast.CallExpr).Resolved == "", scall(0, dynamicDispatch, env1, expr.(*ast.CallExpr), dbg) && result == sret(0, dynamicDispatch), scall(0, staticDispatch, env1, expr.(*ast.CallExpr), dbg) && result == sret(0, staticDispatch))
+//@   ensures #subscript typeis(expr, *ast.SubscriptExpr) ==> scalls() == 2 && scall(0, compile, expr.(*ast.SubscriptExpr).Var, env1, dbg) && scall(1, compile, expr.(*ast.SubscriptExpr).Idx, env1, dbg) && captured(result, vac) == sret(0, compile) && captured(result, idxc) == sret(1, compile)
+//@   ensures #member typeis(expr, *ast.MemberExpr) ==> scalls() == 1 && scall(0, compile, expr.(*ast.MemberExpr).Obj, env1, dbg) && captured(result, obj) == sret(0, compile) && captured(result, name) == expr.(*ast.MemberExpr).Field.Name
+
+//@ func compileArgs
+//@   props C03 C06
+//@   requires env1 != nil
+//@   modifies
+//@   records compile
+//@   loop 1 invariant rangeindex + 1 <= len(call.Args) && len(cs) == len(call.Args) && isfresh(cs) && scalls() == rangeindex + 1 && forall(j, 0, rangeindex + 1, scall(j, compile, call.Args[j], env1, dbg) && cs[j] == sret(j, compile))
+//@   ensures #args len(result) == len(call.Args) && scalls() == len(call.Args) && forall(j, 0, len(call.Args), scall(j, compile, call.Args[j], env1, dbg) && result[j] == sret(j, compile))
+
+//@ func makeCallClosure
+//@   props C03 C06
+//@   modifies
+//@   ensures #captures result != nil && captured(result, fun) == fun && same(captured(result, argCs), argCs)
+
+//@ func staticDispatch
+//@   props C03 C06
+//@   requires env1 != nil
+//@   modifies
+//@   records val.(*Env).MustGetMonoFun val.(*Env).MustGetPolyFuns compileArgs makeCallClosure
+//@   ensures #lookup ite(call.Index < 0, scall(0, MustGetMonoFun, env1, call.Resolved), scall(0, MustGetPolyFuns, env1, call.Resolved))
+//@   ensures #nonnil result != nil
+//@   ensures #call scalls() == 3 && scall(1, compileArgs, env1, call, dbg) && scall(2, makeCallClosure, ite(call.Index < 0, sret(0, MustGetMonoFun), sret(0, MustGetPolyFuns)[call.Index]), sret(1, compileArgs)) && result == sret(2, makeCallClosure)
+
+//@ func dynamicDispatch
+//@   props C03 C06
+//@   requires env1 != nil
+//@   modifies
+//@   records compile compileArgs
+//@   ensures #nonnil result != nil
+//@   ensures #parts scalls() == 2 && scall(0, compile, call.Callee, env1, dbg) && scall(1, compileArgs, env1, call, dbg) && captured(result, cc) == sret(0, compile) && same(captured(result, cs), sret(1, compileArgs))
+
+// ---- closure compiler: run time (C06, C03) ---------------------------------
+// The compiled closures call their sub-closures exactly once each, in source
+// order (log of the calls through function values made by the activation).
+// ASSUMED at the dynamic calls, PROVED for the closure's own code: the arrays
+// of sub-closures are not written.
+
+// list literal
+//@ closure compile0$7
+//@   props C06 C03
+//@   modifies all
+//@   preserves cs[*]
+//@   records dyn
+//@   loop 1 invariant rangeindex + 1 <= len(cs) && scalls() == rangeindex + 1 && forall(j, 0, rangeindex + 1, scall(j, dyn, cs[j], env))
+//@   ensures #order scalls() == len(cs) && forall(j, 0, len(cs), scall(j, dyn, cs[j], env))
+
+// map literal
+//@ closure compile0$9
+//@   props C06 C03
+//@   modifies all
+//@   preserves cs[*]
+//@   records dyn
+//@   loop 1 invariant rangeindex + 1 <= len(cs) && scalls() == 2 * (rangeindex + 1) && forall(j, 0, rangeindex + 1, scall(2 * j, dyn, cs[j].k, env) && scall(2 * j + 1, dyn, cs[j].v, env))
+//@   ensures #order scalls() == 2 * len(cs) && forall(j, 0, len(cs), scall(2 * j, dyn, cs[j].k, env) && scall(2 * j + 1, dyn, cs[j].v, env))
+
+// object literal
+//@ closure compile0$11
+//@   props C06 C03
+//@   modifies all
+//@   preserves cs[*]
+//@   records dyn
+//@   loop 1 invariant rangeindex + 1 <= len(cs) && scalls() == rangeindex + 1 && forall(j, 0, rangeindex + 1, scall(j, dyn, cs[j], env))
+//@   ensures #order scalls() == len(cs) && forall(j, 0, len(cs), scall(j, dyn, cs[j], env))
+
+// subscript: container first, then the index, each once
+//@ closure compile0$13
+//@   props C06 C03
+//@   modifies all
+//@   records dyn
+//@   ensures #order scalls() == 2 && scall(0, dyn, vac, env) && scall(1, dyn, idxc, env)
+
+// member access
+//@ closure compile0$14
+//@   props C06 C03
+//@   modifies all
+//@   records dyn
+//@   ensures #order scalls() == 1 && scall(0, dyn, obj, env)
+
+// a call: strict arguments are evaluated once each in source order and then
+// the function is invoked once; arguments of a lazy function are not
+// evaluated but wrapped, in order, into thunks
+//@ closure makeCallClosure$1
+//@   props C06 C03
+//@   modifies all
+//@   preserves argCs[*]
+//@   records dyn thunkify val.(*FunVal).Call
+//@   loop 1 invariant #a rangeindex + 1 <= len(argCs) && scalls() == rangeindex + 1
+//@   loop 1 invariant #b forall(j, 0, rangeindex + 1, ite(fun.Lazy, scall(j, thunkify, argCs[j], env), scall(j, dyn, argCs[j], env)))
+//@   ensures #count scalls() == len(argCs) + 1
+//@   ensures #order forall(j, 0, len(argCs), ite(fun.Lazy, scall(j, thunkify, argCs[j], env), scall(j, dyn, argCs[j], env)))
+//@   ensures #invoke scall(len(argCs), Call, fun) && result == sret(len(argCs), Call)
+
+//@ closure thunkify$1
+//@   props C06 C03
+//@   modifies all
+//@   records dyn
+//@   ensures #forced scalls() == 1 && scall(0, dyn, cl, env) && result == sret(0, dyn)
+
+// dynamic dispatch: the callee expression is evaluated first, once, then the call proceeds as above
+//@ closure dynamicDispatch$1
+//@   props C06 C03
+//@   modifies all
+//@   records dyn makeCallClosure
+//@   ensures #order scalls() == 3 && scall(0, dyn, cc, env) && scall(1, makeCallClosure, sret(0, dyn).Fun(), cs) && scall(2, dyn, sret(1, makeCallClosure), env) && result == sret(2, dyn)
